@@ -5,6 +5,7 @@
 use crate::bridge::*;
 use crate::dev::Dev;
 use crate::engine::*;
+use crate::iterprog::{self, Prog, PROGS};
 use crate::model::*;
 use crate::oracle::*;
 use crate::structs::*;
@@ -63,6 +64,8 @@ pub struct Obs {
     pub nth_pos: Vec<usize>,
     /// size_hint before each next(), and after the last
     pub hints: Vec<(usize, Option<usize>)>,
+    /// the iterator driven through std adaptors: (with index?, reader state 0 fresh / 1 after one next() / 2 after seek(1), program, answers)
+    pub progs: Vec<(bool, u8, Prog, iterprog::Out<Result<MRead, String>>)>,
 }
 
 pub fn mread_eq(a: &MRead, b: &MRead) -> bool {
@@ -161,6 +164,34 @@ pub fn observe(case: &Case) -> Obs {
             nth.push(r.read_nth_shape(i).map(|x| x.map(|s| from_lib(&s)).map_err(|e| err_kind(&e))));
         }
     }
+    let mut progs = vec![];
+    if n <= 8 {
+        let conv = |o: iterprog::Out<Result<Shape, shapefile::Error>>| iterprog::Out { answers: o.answers.into_iter().map(|a| a.map(|x| x.map(|s| from_lib(&s)).map_err(|e| err_kind(&e)))).collect(), count: o.count };
+        if let Ok(mut r) = open() {
+            for pre in 0..3u8 {
+                for p in PROGS {
+                    let ready = match pre {
+                        0 => r.seek(0).is_ok(),
+                        1 => r.seek(0).is_ok() && r.iter_shapes().next().is_some(),
+                        _ => r.seek(1).is_ok(),
+                    };
+                    if ready {
+                        progs.push((true, pre, p, conv(iterprog::run(r.iter_shapes(), p, n + 3))));
+                    }
+                }
+            }
+        }
+        for pre in 0..2u8 {
+            for p in PROGS {
+                if let Ok(mut r) = ShapeReader::new(Dev::quiet(shp.clone())) {
+                    if pre == 1 && r.iter_shapes().next().is_none() {
+                        continue;
+                    }
+                    progs.push((false, pre, p, conv(iterprog::run(r.iter_shapes(), p, n + 3))));
+                }
+            }
+        }
+    }
     Obs {
         n,
         shp,
@@ -171,6 +202,7 @@ pub fn observe(case: &Case) -> Obs {
         nth,
         nth_pos,
         hints,
+        progs,
     }
 }
 
@@ -226,6 +258,33 @@ pub fn judge(case: &Case, o: &Obs) -> Vec<(String, String)> {
                         out.push((format!("{}:random-access-beyond-end", tn), format!("read_nth_shape({}) is Some for a file of {} shapes", i, n)));
                         break;
                     }
+                }
+            }
+            // the std adaptors over the iterator: what they return over the plain sequence of the n shapes
+            for (with, pre, p, got) in &o.progs {
+                let start = if *pre == 0 { 0 } else { 1 };
+                let (want, _) = iterprog::reference(start, n, *p, n + 3);
+                let same = want.count == got.count
+                    && want.answers.len() == got.answers.len()
+                    && want.answers.iter().zip(&got.answers).all(|(w, g)| match (w, g) {
+                        (None, None) => true,
+                        (Some(k), Some(Ok(s))) => *k < a.len() && mread_eq(s, &a[*k]),
+                        _ => false,
+                    });
+                if !same {
+                    let shown: Vec<String> = got.answers.iter().map(|x| match x {
+                        None => "None".to_string(),
+                        Some(Err(e)) => format!("Err({})", e),
+                        Some(Ok(s)) => match a.iter().position(|y| mread_eq(s, y)) {
+                            Some(k) => format!("shape {}", k),
+                            None => "a shape that was not written".into(),
+                        },
+                    }).collect();
+                    out.push((
+                        format!("{}:adaptor-iteration:{}", tn, if *with { "with-index" } else { "without-index" }),
+                        format!("{} {} ({}): returned {:?} count {:?}; over shapes {}..{} it returns {:?} count {:?}", p.name(), ["on a fresh reader", "after one next()", "after seek(1)"][*pre as usize], if *with { "with index" } else { "without index" }, shown, got.count, start, n, want.answers, want.count),
+                    ));
+                    break;
                 }
             }
             // size hints: before the k-th next() exactly n-k remain
@@ -296,6 +355,14 @@ fn selftest() -> (u64, u64) {
     t(&|o| o.nth[3] = o.nth[2].clone());
     t(&|o| o.nth.swap(0, 1));
     t(&|o| o.hints[1] = (1, Some(1)));
+    t(&|o| {
+        let k = o.progs.iter().position(|(w, pre, p, _)| !*w && *pre == 1 && *p == Prog::StepBy(2)).unwrap();
+        o.progs[k].3.answers.insert(0, None);
+    });
+    t(&|o| {
+        let k = o.progs.iter().position(|(w, pre, p, _)| *w && *pre == 2 && *p == Prog::NthNext(0)).unwrap();
+        o.progs[k].3.answers.swap(0, 1);
+    });
     t(&|o| {
         if let Ok(v) = &mut o.seq_without {
             v.swap(0, 2)
@@ -373,7 +440,7 @@ pub fn check(tier: Tier) -> i32 {
             tier,
             level: "model_checking",
             engine: "E2 enumerator: every ordered tuple of different-size shapes written by the real ShapeWriter, .shx parsed independently (RefCodec), reader routes compared",
-            rule: "13 types x every n in 0..=maxn x every ordered n-tuple over the type's reduced set of pairwise different-size structures; in-memory for all, from_path for n<=2 (and n=3 starting with structure 0); non-trivial = n >= 2",
+            rule: "13 types x every n in 0..=maxn x every ordered n-tuple over the type's reduced set of pairwise different-size structures; in-memory for all, from_path for n<=2 (and n=3 starting with structure 0); for n<=8 the iterator is also driven through 14 programs of std adaptors (nth, skip, step_by, last, count) with and without the index from a fresh reader, after one next() and after seek(1); non-trivial = n >= 2",
             bounds: json!({"max_records": maxn, "reduced_set_sizes": ALL13.iter().map(|t| reduced_set(*t).len()).collect::<Vec<_>>() }),
             exhaustive: true,
             assumptions: vec!["record sizes beyond the reduced set and n beyond the bound are not covered".into()],
